@@ -8,11 +8,12 @@ from vsc.model.wildcard_binspec import WildcardBinspec
 
 class CoverpointBinSingleWildcardModel(CoverpointBinModelBase):
     
-    def __init__(self, name, specs : WildcardBinspec):
+    def __init__(self, name, specs : WildcardBinspec, exclude_bins=None):
         super().__init__(name)
         self.n_bins = 1
         self.wildcard_binspec = specs
-        pass
+        # Values removed by the coverpoint's ignore and illegal bins
+        self.exclude_bins = exclude_bins
     
     def finalize(self, bin_idx_base : int) -> int:
         super().finalize(bin_idx_base)
@@ -29,6 +30,10 @@ class CoverpointBinSingleWildcardModel(CoverpointBinModelBase):
 
         # Process each value/mask pair
         self.hit_bin_idx = -1        
+        if self.exclude_bins is not None and val in self.exclude_bins:
+            # Excluded values are not part of this bin
+            return
+
         for s in self.wildcard_binspec.specs:
             if (val & s[1]) == (s[0] & s[1]):
                 self.hit_bin_idx = 0
@@ -46,10 +51,15 @@ class CoverpointBinSingleWildcardModel(CoverpointBinModelBase):
         
         if eq:
             eq &= self.wildcard_binspec.equals(oth.wildcard_binspec)
+            if self.exclude_bins is None or oth.exclude_bins is None:
+                eq &= (self.exclude_bins is None and oth.exclude_bins is None)
+            else:
+                eq &= self.exclude_bins.equals(oth.exclude_bins)
             
         return eq
     
     def clone(self):
         return CoverpointBinSingleWildcardModel(
             self.name, 
-            self.wildcard_binspec.clone())
+            self.wildcard_binspec.clone(),
+            None if self.exclude_bins is None else self.exclude_bins.clone())
